@@ -46,6 +46,7 @@ type rbMsg struct {
 	ChildName string   `json:"childname"`
 	PageSize  string   `json:"page_size"`
 	Tags      []string `json:"tags"`
+	U32       string   `json:"u32"`
 }
 
 type rbObs struct {
@@ -95,7 +96,8 @@ func textOfTok(tok string) string {
 	}
 	return map[string]string{"i_42": "42", "i_neg": "-7", "i_big": "9007199254740993", "i_bad": "x1", "b_true": "true", "b_false": "false",
 		"b_bad": "yes", "e_name": "KIND_A", "e_num": "2", "e_bad": "NOPE", "w_9": "9", "w_bad": "abc",
-		"t_ok": "2020-01-02T03:04:05Z", "t_bad": "yesterday", "p_5": "5", "p_bad": "five"}[tok]
+		"t_ok": "2020-01-02T03:04:05Z", "t_bad": "yesterday", "p_5": "5", "p_bad": "five",
+		"u_7": "7", "u_max": "4294967295", "u_over": "4294967297", "u_neg": "-1"}[tok]
 }
 
 // jsonOfTok: the JSON form of a token in a body.
@@ -115,6 +117,14 @@ func jsonOfTok(tok string) any {
 		return 2
 	case "p_5":
 		return 5
+	case "u_7":
+		return 7
+	case "u_max":
+		return uint64(4294967295)
+	case "u_over":
+		return uint64(4294967297)
+	case "u_neg":
+		return -1
 	}
 	return textOfTok(tok)
 }
@@ -151,7 +161,16 @@ var rulePathRe = map[string]*regexp.Regexp{
 func abstractMsg(m protoreflect.Message) rbMsg {
 	get := func(name string) protoreflect.Value { return m.Get(fd(m, name)) }
 	out := rbMsg{Name: get("name").String(), Parent: get("parent").String(), Num: "unset", Flag: "unset", KindE: "unset",
-		Wrapped: "unset", TS: "unset", PageSize: "unset", Tags: []string{}}
+		Wrapped: "unset", TS: "unset", PageSize: "unset", Tags: []string{}, U32: "unset"}
+	switch v := get("u32").Uint(); v {
+	case 0:
+	case 7:
+		out.U32 = "u_7"
+	case 4294967295:
+		out.U32 = "u_max"
+	default:
+		out.U32 = fmt.Sprintf("other:%d", v)
+	}
 	switch v := get("num").Int(); v {
 	case 0:
 	case 42:
